@@ -7,7 +7,7 @@ RULE = ('(a) complete sweep: 5 short texts (2/3/4-byte UTF-8, surrogate pairs, C
         'delivered as two peer writes or as one write torn by the kernel, transports rotated (all four in the thorough tier); '
         '(b) seeded exploration: texts of 1..60 characters over ASCII/2/3/4-byte/CJK pools x 13 encodings (+ bytes mode with '
         'arbitrary bytes) x up to 3 cuts x {split write, torn read, maxread 1..3} x 4 transports x codec_errors strict/replace/'
-        'ignore (invalid bytes injected only under replace/ignore) x {logfile, logfile_read} x drain by read()/expect(EOF)/'
+        'ignore (invalid bytes injected only under replace/ignore) x {logfile, logfile_read} x blocking or awaited (asyncio path, pty/fd) x drain by read()/expect(EOF)/'
         'per-character expect. Oracle: text handed to the caller, text fed to matching (recorded reads) and text written to each '
         'log == codecs.decode(whole byte stream, encoding, errors) and has the API string type; bytes mode passes bytes through. '
         'Inputs on which CPython\'s own incremental decoder is chunk-dependent are skipped and counted. '
